@@ -11,6 +11,7 @@ import (
 	"verif/mc/drive"
 	"verif/mc/engine"
 	"verif/mc/refcfg"
+	"verif/mc/refx509"
 	"verif/mc/simfs"
 )
 
@@ -28,6 +29,7 @@ type c03Case struct {
 	Serial int `json:"serial,omitempty"` // index into c03Serials, 0 = unconfigured
 	IUID   int `json:"iuid,omitempty"`   // index into c03UIDs, 0 = none
 	SUID   int `json:"suid,omitempty"`
+	Role   int `json:"role,omitempty"` // ids: 0 self-signed with its own key, 1 issued by a CA with its own key, 2 issued by a CA for a request-only artifact
 }
 
 var c03Keys = []string{"C", "O", "OU", "CN", "SERIALNUMBER", "L", "ST", "STREET", "POSTALCODE", "1.2.3.4", "2.5.4.97"}
@@ -110,7 +112,9 @@ func c03Enumerate(tier string, yield func(any)) {
 		for i := 0; i < uids; i++ {
 			for j := 0; j < uids; j++ {
 				for pm := 0; pm < 3; pm++ {
-					yield(&c03Case{Kind: "ids", Serial: s, IUID: i, SUID: j, ProfMod: pm})
+					for role := 0; role < 3; role++ {
+						yield(&c03Case{Kind: "ids", Serial: s, IUID: i, SUID: j, ProfMod: pm, Role: role})
+					}
 				}
 			}
 		}
@@ -256,8 +260,22 @@ func c03Exec(x *engine.Ctx, cc any) {
 			d.Profiles = []*refcfg.ProfileCfg{{Path: "prof.yaml", Name: "p", SubjAttrs: &refcfg.SubjectAttributes{Attributes: []refcfg.SubjAttr{{Attribute: "CN"}}}, Validity: &refcfg.Validity{Duration: "2y"}}}
 			cfg.Profile = "p"
 		}
-		g := Generate(d, func(w *simfs.World) { w.Put("ent.pem", FixtureKeyPEM("P-224-0")) }, drive.Default)
-		x.Nontrivial(fmt.Sprintf("ids %d %d %d %d", c.Serial, c.IUID, c.SUID, c.ProfMod))
+		if c.Role > 0 {
+			cfg.Issuer = "ca"
+			d.Certs = append([]*refcfg.CertCfg{{Path: "ca.yaml", Subject: "CN=ids CA", KeyAlg: "P-224"}}, d.Certs...)
+		}
+		g := Generate(d, func(w *simfs.World) {
+			if c.Role == 2 {
+				k, _ := refx509.ParsePKCS8(FixtureKeyDER("P-224-0"))
+				w.Put("ent.pem", refx509.EncodePem("CERTIFICATE REQUEST", refx509.BuildCSR(k, "ids", nil)))
+			} else {
+				w.Put("ent.pem", FixtureKeyPEM("P-224-0"))
+			}
+			if c.Role > 0 {
+				w.Put("ca.pem", FixtureKeyPEM("P-224-1"))
+			}
+		}, drive.Default)
+		x.Nontrivial(fmt.Sprintf("ids %d %d %d %d %d", c.Serial, c.IUID, c.SUID, c.ProfMod, c.Role))
 		if !g.Res.OK() {
 			x.Violation("C03/run-failed ids", fmt.Sprintf("%v %s", g.Res.Err(), g.Res.Panic))
 			return
@@ -314,7 +332,7 @@ func init() {
 	register(&engine.Check{
 		ID:          "C03",
 		Level:       "exploration",
-		Rule:        "subject strings over 11 keys (9 short names, 2 dotted OIDs) x 7 values (ASCII, inner double space, punctuation, non-ASCII, 64 and 200 characters): every sequence of length 1..3 (4.6e5, with 4 separator spellings) through config.ParseRDNSequence vs. the documented grammar; every sequence of length 1..2 and every cyclic window of length 3..8 with rotating values through whole certificate generation without profile, with a profile listing the subject's attributes, and the same with allowOther (quick thins the profile variants of length-2 subjects to a third); 8 serials x 6 x 6 unique-id settings x {no profile, extension-only profile, subject-constraining profile}; 8 two-run forests for serial freshness. Oracle: one single-valued RDN per pair in reversed order, documented OID, text unchanged, UTF8String or (in repertoire) PrintableString, identical with and without profile; configured serial/unique ids bit for bit. non-trivial = distinct case that reached the comparison",
+		Rule:        "subject strings over 11 keys (9 short names, 2 dotted OIDs) x 7 values (ASCII, inner double space, punctuation, non-ASCII, 64 and 200 characters): every sequence of length 1..3 (4.6e5, with 4 separator spellings) through config.ParseRDNSequence vs. the documented grammar; every sequence of length 1..2 and every cyclic window of length 3..8 with rotating values through whole certificate generation without profile, with a profile listing the subject's attributes, and the same with allowOther (quick thins the profile variants of length-2 subjects to a third); 8 serials x 6 x 6 unique-id settings x {no profile, extension-only profile, subject-constraining profile} x {self-signed, issued with own key, issued for a request-only artifact}; 8 two-run forests for serial freshness. Oracle: one single-valued RDN per pair in reversed order, documented OID, text unchanged, UTF8String or (in repertoire) PrintableString, identical with and without profile; configured serial/unique ids bit for bit. non-trivial = distinct case that reached the comparison",
 		Bound:       map[string]string{"subject length": "parser 1..3 exhaustive (thorough 1..4: 3.5e7), generation 1..2 exhaustive (thorough: length 3 over 11 keys x 2 values), 3..8 windows", "values": "7"},
 		Assumptions: []string{"values containing , = \\ or a leading # are outside the documented grammar that reaches the parser", "fresh-serial collisions have probability about 2^-150"},
 		Budget:      budgets(quickBudget, thoroughBudget),
